@@ -918,6 +918,9 @@ func (ex *Exec) simple(st *State, fr *Frame, in ssa.Instruction) {
 	case *ssa.Alloc:
 		ref := ex.allocRef()
 		v := ex.mkVal(x.Type(), ref)
+		if v.Arr != "" {
+			v.Arr = cellName(x)
+		}
 		ex.zeroObject(st, v)
 		fr.vals[x] = v
 		if x.Comment != "" {
@@ -992,8 +995,8 @@ func (ex *Exec) simple(st *State, fr *Frame, in ssa.Instruction) {
 		sz := ex.val(st, fr, x.Size)
 		st.assume("(= (ch_cap " + ref + ") " + sz.T + ")")
 		st.write("closed", "Bool", ref, "false")
-		st.write("chlen", "Int", ref, "0")
 		v := ex.mkVal(x.Type(), ref)
+		st.write(chlenArr(v), "Int", ref, "0")
 		ord := ex.ordinalOf(fr, x, "makechan")
 		classed := false
 		if fr.spec != nil {
@@ -1152,4 +1155,52 @@ func (ex *Exec) expandCounters(st *State, ms *modSet) []string {
 	}
 	sort.Strings(out)
 	return out
+}
+
+// cellName: each local variable cell (Alloc of a non-struct) has its own heap array, so that
+// havocs of one captured variable do not disturb the others.
+func cellName(a *ssa.Alloc) string {
+	el := derefType(a.Type())
+	so := sortOf(el)
+	if so == "" {
+		so = "Int"
+	}
+	fn := a.Parent()
+	name := a.Comment
+	if name == "" {
+		name = a.Name()
+	}
+	return "cell." + so + "." + smtSym(fn.String()) + "." + smtSym(name)
+}
+
+// resolveCell: the heap array behind a pointer-valued SSA value that denotes a variable cell
+// (an Alloc, or a closure's free variable bound to an Alloc of an enclosing function).
+func resolveCell(v ssa.Value) (string, bool) {
+	switch x := v.(type) {
+	case *ssa.Alloc:
+		if structOf(derefType(x.Type())) != nil {
+			return "", false
+		}
+		return cellName(x), true
+	case *ssa.FreeVar:
+		fn := x.Parent()
+		idx := -1
+		for i, fv := range fn.FreeVars {
+			if fv == x {
+				idx = i
+			}
+		}
+		par := fn.Parent()
+		if par == nil || idx < 0 {
+			return "", false
+		}
+		for _, b := range par.Blocks {
+			for _, in := range b.Instrs {
+				if mc, ok := in.(*ssa.MakeClosure); ok && mc.Fn == fn && idx < len(mc.Bindings) {
+					return resolveCell(mc.Bindings[idx])
+				}
+			}
+		}
+	}
+	return "", false
 }
